@@ -2,5 +2,1480 @@
 import MelModel.Seal
 import MelModel.Lemmas.Swap
 import MelModel.Lemmas.Pools
+import MelModel.Props.C20
 namespace Mel
+open Mel.Gen
+
+/-! ### generic: a fold whose every step succeeds, with an invariant that may mention the remaining list -/
+
+theorem Outcome.foldlM'_ok {α β} (f : β → α → Outcome β) (I : β → List α → Prop)
+    (hstep : ∀ b a rest, I b (a :: rest) → ∃ b', f b a = .ok b' ∧ I b' rest) :
+    ∀ (l : List α) (b : β), I b l → ∃ b', Outcome.foldlM' f b l = .ok b' ∧ I b' [] := by
+  intro l
+  induction l with
+  | nil => intro b hb; exact ⟨b, rfl, hb⟩
+  | cons a as ih =>
+    intro b hb
+    obtain ⟨b1, h1, hI⟩ := hstep b a as hb
+    obtain ⟨b2, h2, hI2⟩ := ih b1 hI
+    refine ⟨b2, ?_, hI2⟩
+    simp only [Outcome.foldlM', h1]
+    exact h2
+
+theorem Outcome.ne_crash_of_ok {α} {x : Outcome α} {a : α} (h : x = .ok a) : ∀ c, x ≠ .crash c := by
+  intro c hc; rw [h] at hc; cases hc
+
+/-! ### saturating arithmetic -/
+
+theorem U128_MAX_pos : 0 < U128_MAX := by decide
+
+theorem satU128_le (n : Nat) : satU128 n ≤ n := by unfold satU128; omega
+theorem satU128_le_max (n : Nat) : satU128 n ≤ U128_MAX := by unfold satU128; omega
+
+theorem satFold_le_max : ∀ (l : List Nat) (a : Nat), a ≤ U128_MAX → l.foldl satAdd128 a ≤ U128_MAX := by
+  intro l
+  induction l with
+  | nil => intro a ha; exact ha
+  | cons x xs ih =>
+    intro a _
+    simp only [List.foldl_cons]
+    exact ih _ (by unfold satAdd128; omega)
+
+theorem satFold_le_sum : ∀ (l : List Nat) (a : Nat), l.foldl satAdd128 a ≤ a + l.sum := by
+  intro l
+  induction l with
+  | nil => intro a; simp
+  | cons x xs ih =>
+    intro a
+    simp only [List.foldl_cons, List.sum_cons]
+    have := ih (satAdd128 a x)
+    have h2 : satAdd128 a x ≤ a + x := by unfold satAdd128; omega
+    omega
+
+theorem satFold_pos : ∀ (l : List Nat) (a : Nat), 0 < a → 0 < l.foldl satAdd128 a := by
+  intro l
+  induction l with
+  | nil => intro a ha; exact ha
+  | cons x xs ih =>
+    intro a ha
+    simp only [List.foldl_cons]
+    have := U128_MAX_pos
+    exact ih _ (by unfold satAdd128; omega)
+
+theorem satFold_pos_of_mem : ∀ (l : List Nat) (a : Nat), (∃ x ∈ l, 0 < x) → 0 < l.foldl satAdd128 a := by
+  intro l
+  induction l with
+  | nil => intro a ⟨x, hx, _⟩; cases hx
+  | cons y ys ih =>
+    intro a ⟨x, hx, hpos⟩
+    simp only [List.foldl_cons]
+    have := U128_MAX_pos
+    rcases List.mem_cons.mp hx with rfl | hx
+    · exact satFold_pos _ _ (by unfold satAdd128; omega)
+    · exact ih _ ⟨x, hx, hpos⟩
+
+theorem satSum_le_max (l : List Nat) : satSum l ≤ U128_MAX := satFold_le_max l 0 (Nat.zero_le _)
+theorem satSum_le_sum (l : List Nat) : satSum l ≤ l.sum := by
+  have := satFold_le_sum l 0; unfold satSum; omega
+theorem satSum_pos {l : List Nat} (h : ∃ x ∈ l, 0 < x) : 0 < satSum l := satFold_pos_of_mem l 0 h
+
+/-- the sum over a filtered list is monotone in the filter -/
+theorem sum_filter_le_of_imp {α} (f : α → Nat) (q q' : α → Bool) :
+    ∀ (l : List α), (∀ a ∈ l, q a = true → q' a = true) →
+      ((l.filter q).map f).sum ≤ ((l.filter q').map f).sum := by
+  intro l
+  induction l with
+  | nil => intro _; simp
+  | cons a as ih =>
+    intro h
+    have ih' := ih (fun b hb => h b (List.mem_cons_of_mem _ hb))
+    have ha := h a List.mem_cons_self
+    simp only [List.filter_cons]
+    by_cases hq : q a = true
+    · simp only [hq, ha hq, if_true, List.map_cons, List.sum_cons]; omega
+    · simp only [hq]
+      by_cases hq' : q' a = true
+      · simp only [hq', if_true, List.map_cons, List.sum_cons]
+        simp only [Bool.false_eq_true, if_false]; omega
+      · simp only [hq']; simpa using ih'
+
+theorem sum_filter_le {α} (f : α → Nat) (q : α → Bool) (l : List α) :
+    ((l.filter q).map f).sum ≤ (l.map f).sum := by
+  have := sum_filter_le_of_imp f q (fun _ => true) l (fun _ _ _ => rfl)
+  rwa [List.filter_eq_self.mpr (fun _ _ => rfl)] at this
+
+theorem sum_map_congr_mem {α} (f g : α → Nat) : ∀ (l : List α), (∀ a ∈ l, f a = g a) →
+    (l.map f).sum = (l.map g).sum := by
+  intro l
+  induction l with
+  | nil => intro _; rfl
+  | cons a as ih =>
+    intro h
+    simp only [List.map_cons, List.sum_cons, h a List.mem_cons_self,
+      ih (fun b hb => h b (List.mem_cons_of_mem _ hb))]
+
+/-! ### `bytesLt`, `Denom.lt`, `PoolKey.lt` are strict total orders (copied from Lemmas/Restart.lean,
+    which cannot be imported here because of a name clash) -/
+
+theorem bytesLt_cons' (a b : UInt8) (as bs : List UInt8) :
+    bytesLt (a :: as) (b :: bs) =
+      if a.toNat < b.toNat then true else if b.toNat < a.toNat then false else bytesLt as bs := by
+  simp [bytesLt, UInt8.lt_iff_toNat_lt]
+
+theorem bytesLt_irrefl' (a : List UInt8) : bytesLt a a = false := by
+  induction a with
+  | nil => rfl
+  | cons x xs ih => rw [bytesLt_cons']; simp [ih]
+
+theorem bytesLt_trans' : ∀ (a b c : List UInt8),
+    bytesLt a b = true → bytesLt b c = true → bytesLt a c = true
+  | [], [], _, h, _ => by simp [bytesLt] at h
+  | [], _ :: _, [], _, h => by simp [bytesLt] at h
+  | [], _ :: _, _ :: _, _, _ => by simp [bytesLt]
+  | _ :: _, [], _, h, _ => by simp [bytesLt] at h
+  | _ :: _, _ :: _, [], _, h => by simp [bytesLt] at h
+  | a :: as, b :: bs, c :: cs, h1, h2 => by
+    have ih := bytesLt_trans' as bs cs
+    rw [bytesLt_cons'] at h1 h2 ⊢
+    by_cases hab : a.toNat < b.toNat
+    · by_cases hbc : b.toNat < c.toNat
+      · rw [if_pos (by omega)]
+      · rw [if_neg hbc] at h2
+        by_cases hcb : c.toNat < b.toNat
+        · rw [if_pos hcb] at h2; cases h2
+        · rw [if_pos (by omega)]
+    · rw [if_neg hab] at h1
+      by_cases hba : b.toNat < a.toNat
+      · rw [if_pos hba] at h1; cases h1
+      · rw [if_neg hba] at h1
+        by_cases hbc : b.toNat < c.toNat
+        · rw [if_pos (by omega)]
+        · rw [if_neg hbc] at h2
+          by_cases hcb : c.toNat < b.toNat
+          · rw [if_pos hcb] at h2; cases h2
+          · rw [if_neg hcb] at h2
+            rw [if_neg (by omega), if_neg (by omega)]
+            exact ih h1 h2
+
+theorem bytesLt_total' : ∀ (a b : List UInt8), bytesLt a b = false → bytesLt b a = false → a = b
+  | [], [], _, _ => rfl
+  | [], _ :: _, h, _ => by simp [bytesLt] at h
+  | _ :: _, [], _, h => by simp [bytesLt] at h
+  | a :: as, b :: bs, h1, h2 => by
+    rw [bytesLt_cons'] at h1 h2
+    by_cases hab : a.toNat < b.toNat
+    · rw [if_pos hab] at h1; cases h1
+    · by_cases hba : b.toNat < a.toNat
+      · rw [if_pos hba] at h2; cases h2
+      · rw [if_neg hab, if_neg hba] at h1
+        rw [if_neg hba, if_neg hab] at h2
+        have : a = b := UInt8.toNat_inj.mp (by omega)
+        rw [this, bytesLt_total' as bs h1 h2]
+
+theorem Denom.lt_irrefl (a : Denom) : a.lt a = false := by
+  cases a <;> simp [Denom.lt, Denom.rank, bytesLt_irrefl']
+
+theorem Denom.lt_trans (a b c : Denom) (h1 : a.lt b = true) (h2 : b.lt c = true) : a.lt c = true := by
+  cases a <;> cases b <;> cases c <;> simp [Denom.lt, Denom.rank] at h1 h2 ⊢
+  exact bytesLt_trans' _ _ _ h1 h2
+
+theorem Denom.lt_total (a b : Denom) (h1 : a.lt b = false) (h2 : b.lt a = false) : a = b := by
+  cases a <;> cases b <;> simp [Denom.lt, Denom.rank] at h1 h2 ⊢
+  exact bytesLt_total' _ _ h1 h2
+
+theorem PoolKey.lt_irrefl (a : PoolKey) : a.lt a = false := by
+  simp [PoolKey.lt, Denom.lt_irrefl]
+
+theorem PoolKey.lt_trans (a b c : PoolKey) (h1 : a.lt b = true) (h2 : b.lt c = true) : a.lt c = true := by
+  unfold PoolKey.lt at *
+  by_cases hab : a.left = b.left
+  · rw [if_pos hab] at h1
+    by_cases hbc : b.left = c.left
+    · rw [if_pos hbc] at h2
+      rw [if_pos (hab.trans hbc)]
+      exact Denom.lt_trans _ _ _ h1 h2
+    · rw [if_neg hbc] at h2
+      rw [if_neg (by rw [hab]; exact hbc), hab]; exact h2
+  · rw [if_neg hab] at h1
+    by_cases hbc : b.left = c.left
+    · rw [if_pos hbc] at h2
+      rw [if_neg (by rw [← hbc]; exact hab), ← hbc]; exact h1
+    · rw [if_neg hbc] at h2
+      have h3 := Denom.lt_trans _ _ _ h1 h2
+      have hac : a.left ≠ c.left := by
+        intro e; rw [e, Denom.lt_irrefl] at h3; cases h3
+      rw [if_neg hac]; exact h3
+
+theorem PoolKey.lt_total (a b : PoolKey) (h1 : a.lt b = false) (h2 : b.lt a = false) : a = b := by
+  unfold PoolKey.lt at *
+  by_cases hab : a.left = b.left
+  · rw [if_pos hab] at h1
+    rw [if_pos hab.symm] at h2
+    have := Denom.lt_total _ _ h1 h2
+    cases a; cases b; simp_all
+  · rw [if_neg hab] at h1
+    rw [if_neg (fun e => hab e.symm)] at h2
+    exact absurd (Denom.lt_total _ _ h1 h2) hab
+
+/-! ### `sortDedup` yields a duplicate-free list of the elements -/
+
+section SortDedup
+variable {α : Type} [DecidableEq α] (lt : α → α → Bool)
+
+theorem mem_insertSorted (x a : α) : ∀ l : List α, a ∈ insertSorted lt x l ↔ a = x ∨ a ∈ l := by
+  intro l
+  induction l with
+  | nil => simp [insertSorted]
+  | cons y ys ih =>
+    simp only [insertSorted]
+    split
+    · next h => subst h; simp
+    · split
+      · simp
+      · simp only [List.mem_cons, ih]
+        constructor
+        · rintro (h | h | h) <;> simp [h]
+        · rintro (h | h | h) <;> simp [h]
+
+theorem mem_sortDedup_aux (a : α) : ∀ (l acc : List α),
+    a ∈ l.foldl (fun acc x => insertSorted lt x acc) acc ↔ a ∈ l ∨ a ∈ acc := by
+  intro l
+  induction l with
+  | nil => intro acc; simp
+  | cons x xs ih =>
+    intro acc
+    simp only [List.foldl_cons, ih, mem_insertSorted, List.mem_cons]
+    constructor
+    · rintro (h | h | h) <;> simp [h]
+    · rintro ((h | h) | h) <;> simp [h]
+
+theorem mem_sortDedup (a : α) (l : List α) : a ∈ sortDedup lt l ↔ a ∈ l := by
+  unfold sortDedup
+  rw [mem_sortDedup_aux]; simp
+
+variable (hirr : ∀ a, lt a a = false) (htr : ∀ a b c, lt a b = true → lt b c = true → lt a c = true)
+  (htot : ∀ a b, lt a b = false → lt b a = false → a = b)
+
+include htr htot in
+theorem pairwise_insertSorted (x : α) : ∀ l : List α, l.Pairwise (fun a b => lt a b = true) →
+    (insertSorted lt x l).Pairwise (fun a b => lt a b = true) := by
+  intro l
+  induction l with
+  | nil => intro _; simp [insertSorted]
+  | cons y ys ih =>
+    intro h
+    have hy := List.pairwise_cons.mp h
+    simp only [insertSorted]
+    split
+    · exact h
+    · next hne =>
+      split
+      · next hlt =>
+        refine List.pairwise_cons.mpr ⟨?_, h⟩
+        intro b hb
+        rcases List.mem_cons.mp hb with rfl | hb
+        · exact hlt
+        · exact htr _ _ _ hlt (hy.1 b hb)
+      · next hnlt =>
+        refine List.pairwise_cons.mpr ⟨?_, ih hy.2⟩
+        intro b hb
+        rcases (mem_insertSorted lt x b ys).mp hb with rfl | hb
+        · cases hyx : lt y b with
+          | true => rfl
+          | false =>
+            have : lt b y = false := by simpa using hnlt
+            exact absurd (htot _ _ this hyx) hne
+        · exact hy.1 b hb
+
+include hirr htr htot in
+theorem nodup_sortDedup (l : List α) : (sortDedup lt l).Nodup := by
+  have hpw : ∀ (l acc : List α), acc.Pairwise (fun a b => lt a b = true) →
+      (l.foldl (fun acc x => insertSorted lt x acc) acc).Pairwise (fun a b => lt a b = true) := by
+    intro l
+    induction l with
+    | nil => intro acc h; exact h
+    | cons x xs ih => intro acc h; exact ih _ (pairwise_insertSorted lt htr htot x acc h)
+  have := hpw l [] List.Pairwise.nil
+  unfold sortDedup
+  refine List.Pairwise.imp ?_ this
+  intro a b hab e
+  subst e
+  rw [hirr] at hab; cases hab
+
+end SortDedup
+
+theorem extractPoolKeysSorted_nodup (txs : List Tx) : (extractPoolKeysSorted txs).Nodup :=
+  nodup_sortDedup PoolKey.lt PoolKey.lt_irrefl PoolKey.lt_trans PoolKey.lt_total _
+
+theorem mem_extractPoolKeysSorted {txs : List Tx} {k : PoolKey} (h : k ∈ extractPoolKeysSorted txs) :
+    ∃ tx ∈ txs, canonicalPoolKey tx.data = some k := by
+  unfold extractPoolKeysSorted at h
+  rw [mem_sortDedup] at h
+  obtain ⟨tx, htx, hk⟩ := List.mem_filterMap.mp h
+  exact ⟨tx, htx, hk⟩
+
+theorem mem_transactionsForPool' {reqs : List Tx} {k : PoolKey} {tx : Tx} :
+    tx ∈ transactionsForPool reqs k ↔ tx ∈ reqs ∧ canonicalPoolKey tx.data = some k := by
+  unfold transactionsForPool
+  simp [List.mem_filter]
+
+/-! ### pool arithmetic: the three operations succeed on sane pools -/
+
+theorem swapMany_spec (p : PoolState) (l r : Nat) (hl : 0 < p.lefts) (hr : 0 < p.rights)
+    (hl' : l ≤ U128_MAX) (hr' : r ≤ U128_MAX) :
+    ∃ p' lw rw, p.swapMany l r = .ok (p', lw, rw) ∧ 0 < p'.lefts ∧ 0 < p'.rights ∧ p'.liqs = p.liqs ∧
+      p'.lefts + lw ≤ p.lefts + l := by
+  have hU := U128_MAX_pos
+  unfold PoolState.swapMany
+  simp only
+  generalize hLd : satAdd128 p.lefts l = L
+  generalize hRd : satAdd128 p.rights r = R
+  have hL : 0 < L ∧ l ≤ L ∧ L ≤ p.lefts + l := by rw [← hLd]; unfold satAdd128; omega
+  have hR : 0 < R ∧ r ≤ R := by rw [← hRd]; unfold satAdd128; omega
+  have h1 : l * R * 995 / (L * 1000) < R := share_lt hL.2.1 hL.1 hR.1
+  have h2 : r * L * 995 / (R * 1000) < L := share_lt hR.2 hR.1 hL.1
+  have h1' := satU128_le (l * R * 995 / (L * 1000))
+  have h2' := satU128_le (r * L * 995 / (R * 1000))
+  rw [if_neg (by omega), if_neg (by omega), if_neg (by omega), if_neg (by omega), if_neg (by omega)]
+  refine ⟨_, _, _, rfl, ?_, ?_, rfl, ?_⟩ <;> simp only <;> omega
+
+theorem deposit_spec (p : PoolState) (l r : Nat) (hs : p.liqs ≠ 0 → 0 < p.lefts ∧ 0 < p.rights) :
+    ∃ p' m, p.deposit l r = .ok (p', m) ∧ (0 < l → 0 < r → 0 < p'.lefts ∧ 0 < p'.rights) ∧
+      (∀ D, D < p.liqs → D < U128_MAX → D < p'.liqs) ∧ p'.lefts ≤ p.lefts + l := by
+  unfold PoolState.deposit
+  by_cases hz : p.liqs = 0
+  · rw [if_pos hz]
+    refine ⟨_, _, rfl, fun h1 h2 => ⟨h1, h2⟩, ?_, ?_⟩
+    · intro D hD; omega
+    · simp only; omega
+  · rw [if_neg hz]
+    obtain ⟨h1, h2⟩ := hs hz
+    simp only
+    rw [if_neg (Nat.ne_of_gt (Nat.mul_pos h1 h2))]
+    refine ⟨_, _, rfl, ?_, ?_, ?_⟩
+    · intro _ _; simp only; omega
+    · intro D hD hD'; simp only; unfold satAdd128; omega
+    · simp only; unfold satAdd128; omega
+
+theorem withdraw_spec (p : PoolState) (q : Nat) (hq : 0 < q) (hle : q ≤ p.liqs) :
+    ∃ p' a b, p.withdraw q = .ok (p', a, b) ∧ p'.liqs = p.liqs - q ∧ p'.lefts ≤ p.lefts ∧
+      (0 < p.lefts → 0 < p.rights → q < p.liqs → 0 < p'.lefts ∧ 0 < p'.rights) := by
+  unfold PoolState.withdraw
+  rw [if_neg (by omega), if_neg (by omega)]
+  simp only
+  by_cases hz : p.liqs - q = 0
+  · rw [if_pos hz]
+    refine ⟨_, _, _, rfl, ?_, ?_, ?_⟩ <;> simp only <;> omega
+  · rw [if_neg hz]
+    refine ⟨_, _, _, rfl, rfl, ?_, ?_⟩
+    · exact Nat.sub_le _ _
+    · intro hl hr hlt
+      have hL : p.lefts * q / p.liqs < p.lefts :=
+        Nat.div_lt_of_lt_mul (by rw [Nat.mul_comm p.liqs]; exact Nat.mul_lt_mul_of_pos_left hlt hl)
+      have hR : p.rights * q / p.liqs < p.rights :=
+        Nat.div_lt_of_lt_mul (by rw [Nat.mul_comm p.liqs]; exact Nat.mul_lt_mul_of_pos_left hlt hr)
+      simp only; omega
+
+theorem multiplyFrac_ok (x n d : Nat) (hd : 0 < d) : ∃ v, multiplyFrac x n d = .ok v := by
+  unfold multiplyFrac
+  rw [if_neg (by omega)]
+  exact ⟨_, rfl⟩
+
+theorem microergsIter_pos (h : Nat) : 0 < microergsIter h := by
+  unfold microergsIter
+  have : ∀ (l : List Nat) (a : Nat), 0 < a →
+      0 < l.foldl (fun last _ => max (last + 1) (last + last / INFLATOR_DIV)) a := by
+    intro l
+    induction l with
+    | nil => intro a ha; exact ha
+    | cons x xs ih => intro a ha; simp only [List.foldl_cons]; exact ih _ (by omega)
+  exact this _ _ (by decide)
+
+/-! ### the request selectors, in full -/
+
+theorem isSwapRequest_full {s : State} {tx : Tx} (h : isSwapRequest s tx = true) :
+    ∃ k o rest p, canonicalPoolKey tx.data = some k ∧ tx.outputs = o :: rest ∧ 0 < o.value ∧
+      s.pools.get k = some p ∧ 0 < p.lefts ∧ 0 < p.rights ∧ (o.denom = k.left ∨ o.denom = k.right) := by
+  unfold isSwapRequest at h
+  simp only [Bool.and_eq_true, decide_eq_true_eq] at h
+  have h2 := h.2
+  split at h2
+  · cases h2
+  · next o0 rest ho =>
+    simp only [Bool.and_eq_true, decide_eq_true_eq] at h2
+    have h3 := h2.2
+    split at h3
+    · cases h3
+    · next k hk =>
+      split at h3
+      · cases h3
+      · next p hp =>
+        simp only [Bool.and_eq_true, Bool.or_eq_true, decide_eq_true_eq] at h3
+        exact ⟨k, o0, rest, p, hk, ho, h2.1.2, hp, h3.1.1, h3.1.2, h3.2⟩
+
+theorem isDepositRequest_full {s : State} {tx : Tx} (h : isDepositRequest s tx = true) :
+    ∃ k o0 o1 rest, canonicalPoolKey tx.data = some k ∧ tx.outputs = o0 :: o1 :: rest ∧
+      0 < o0.value ∧ 0 < o1.value ∧ o0.denom = k.left := by
+  unfold isDepositRequest at h
+  simp only [Bool.and_eq_true, decide_eq_true_eq] at h
+  have h2 := h.2
+  split at h2
+  · next o0 o1 rest ho =>
+    simp only [Bool.and_eq_true, decide_eq_true_eq] at h2
+    have h3 := h2.2
+    split at h3
+    · cases h3
+    · next k hk =>
+      simp only [Bool.and_eq_true, decide_eq_true_eq] at h3
+      exact ⟨k, o0, o1, rest, hk, ho, h2.1.1.1.1, h2.1.1.1.2, h3.1⟩
+  · cases h2
+
+theorem isWithdrawRequest_full {env : Env} {s : State} {tx : Tx} (h : isWithdrawRequest env s tx = true) :
+    tx.kind = .liqWithdraw ∧ ∃ k o0, canonicalPoolKey tx.data = some k ∧ tx.outputs = [o0] ∧
+      0 < o0.value ∧ (s.pools.get k).isSome = true := by
+  unfold isWithdrawRequest at h
+  simp only [Bool.and_eq_true, decide_eq_true_eq] at h
+  refine ⟨h.1, ?_⟩
+  have h2 := h.2
+  split at h2
+  · next o0 ho =>
+    simp only [Bool.and_eq_true, decide_eq_true_eq] at h2
+    have h3 := h2.2
+    split at h3
+    · cases h3
+    · next k hk =>
+      simp only [Bool.and_eq_true, decide_eq_true_eq] at h3
+      exact ⟨k, o0, hk, ho, h2.1.1, h3.1⟩
+  · cases h2
+
+/-! ### `Nat.sqrt` is positive on positive numbers -/
+
+theorem sqrtIter_pos (n : Nat) (hn : 0 < n) : ∀ g, 0 < g → 0 < Nat.sqrt.iter n g := by
+  intro g
+  induction g using Nat.strongRecOn with
+  | _ g ih =>
+    intro hg
+    unfold Nat.sqrt.iter
+    simp only
+    by_cases h1 : g = 1
+    · subst h1
+      rw [Nat.div_one]
+      split
+      · omega
+      · exact hg
+    · generalize n / g = q
+      split
+      · next hlt =>
+        apply ih _ hlt
+        omega
+      · exact hg
+
+theorem sqrt_pos_of_pos {n : Nat} (h : 0 < n) : 0 < Nat.sqrt n := by
+  unfold Nat.sqrt
+  split
+  · exact h
+  · apply sqrtIter_pos _ h
+    exact Nat.pos_of_ne_zero (by simp [Nat.shiftLeft_eq])
+
+theorem mtsqrt_pos {a b : Nat} (ha : 0 < a) (hb : 0 < b) : 0 < mtsqrt a b := by
+  unfold mtsqrt satMul128
+  have := Nat.mul_pos (sqrt_pos_of_pos ha) (sqrt_pos_of_pos hb)
+  have := U128_MAX_pos
+  omega
+
+/-! ### the coin invariant carried through the swap and deposit phases -/
+
+/-- a coin sitting at an output slot of a transaction of the block is locked by that output's covenant -/
+def Faithful (txs : List Tx) (m : CoinMap) : Prop :=
+  ∀ tx ∈ txs, ∀ i o c, tx.outputs[i]? = some o → m.getCoin ⟨tx.hash, i⟩ = some c →
+    c.coinData.covhash = o.covhash
+
+def CoinsInv (txs : List Tx) (tip : Bool) (m : CoinMap) : Prop :=
+  (tip = true → CountsOk m) ∧ Faithful txs m
+
+theorem CoinMap.getCoin_insertCoin_self (m : CoinMap) (id : CoinID) (d : CoinDataHeight) (t : Bool) :
+    (m.insertCoin id d t).getCoin id = some d := by
+  unfold CoinMap.insertCoin CoinMap.getCoin
+  simp only
+  split <;> exact AList.get_set_self _ _ _
+
+theorem CoinMap.getCoin_removeCoin_self {m m' : CoinMap} {id : CoinID} {t : Bool}
+    (h : m.removeCoin id t = .ok m') : m'.getCoin id = none := by
+  unfold CoinMap.removeCoin at h
+  unfold CoinMap.getCoin
+  split at h
+  · split at h
+    · simp only at h
+      split at h
+      · cases h
+      · cases h; exact AList.get_del_self _ _
+    · cases h; exact AList.get_del_self _ _
+  · cases h; exact AList.get_del_self _ _
+
+theorem tx_eq_of_hash : ∀ (l : List Tx), (l.map (·.hash)).Nodup → ∀ a ∈ l, ∀ b ∈ l, a.hash = b.hash → a = b := by
+  intro l
+  induction l with
+  | nil => intro _ a ha; cases ha
+  | cons x xs ih =>
+    intro hn a ha b hb hab
+    simp only [List.map_cons, List.nodup_cons, List.mem_map, not_exists, not_and] at hn
+    rcases List.mem_cons.mp ha with ha | ha <;> rcases List.mem_cons.mp hb with hb | hb
+    · rw [ha, hb]
+    · rw [ha] at hab; exact absurd hab.symm (hn.1 b hb)
+    · rw [hb] at hab; exact absurd hab (hn.1 a ha)
+    · exact ih hn.2 a ha b hb hab
+
+theorem CoinsInv.insert {txs : List Tx} {tip : Bool} {m : CoinMap} (h : CoinsInv txs tip m)
+    (hn : (txs.map (·.hash)).Nodup) {tx : Tx} (htx : tx ∈ txs) {i : Nat} {o : CoinData}
+    (ho : tx.outputs[i]? = some o) {d : CoinDataHeight} (hd : d.coinData.covhash = o.covhash) :
+    CoinsInv txs tip (m.insertCoin ⟨tx.hash, i⟩ d tip) := by
+  refine ⟨?_, ?_⟩
+  · intro ht
+    subst ht
+    cases hg : m.getCoin ⟨tx.hash, i⟩ with
+    | none => exact C20_insert_fresh _ _ _ (h.1 rfl) hg
+    | some old =>
+      exact C20_insert_overwrite _ _ _ old (h.1 rfl) hg (by rw [hd]; exact h.2 tx htx i o old ho hg)
+  · intro tx' htx' i' o' c' ho' hc'
+    by_cases hid : (⟨tx'.hash, i'⟩ : CoinID) = ⟨tx.hash, i⟩
+    · rw [hid, CoinMap.getCoin_insertCoin_self] at hc'
+      injection hid with h1 h2
+      have : tx' = tx := tx_eq_of_hash txs hn _ htx' _ htx h1
+      subst this; subst h2
+      rw [ho] at ho'
+      cases ho'; cases hc'; exact hd
+    · rw [CoinMap.getCoin_insertCoin_ne _ _ _ hid] at hc'
+      exact h.2 tx' htx' i' o' c' ho' hc'
+
+theorem CoinsInv.remove {txs : List Tx} {tip : Bool} {m : CoinMap} (h : CoinsInv txs tip m) (id : CoinID) :
+    ∃ m', m.removeCoin id tip = .ok m' ∧ CoinsInv txs tip m' := by
+  have hex : ∃ m', m.removeCoin id tip = .ok m' ∧ (tip = true → CountsOk m') := by
+    cases tip with
+    | true =>
+      obtain ⟨m', h1, h2⟩ := C20_remove m id (h.1 rfl)
+      exact ⟨m', h1, fun _ => h2⟩
+    | false => exact ⟨{ m with coins := m.coins.del id }, by unfold CoinMap.removeCoin; simp, fun e => by cases e⟩
+  obtain ⟨m', h1, h2⟩ := hex
+  refine ⟨m', h1, h2, ?_⟩
+  intro tx htx i o c ho hc
+  by_cases hid : (⟨tx.hash, i⟩ : CoinID) = id
+  · rw [hid, CoinMap.getCoin_removeCoin_self h1] at hc; cases hc
+  · rw [CoinMap.getCoin_removeCoin_ne h1 hid] at hc
+    exact h.2 tx htx i o c ho hc
+
+/-! ### one pool of one settlement phase -/
+
+/-- shape of "fold the coins, then rebuild the state" -/
+theorem bind_fold_ok {α β γ} (f : β → α → Outcome β) (I : β → List α → Prop)
+    (hstep : ∀ b a rest, I b (a :: rest) → ∃ b', f b a = .ok b' ∧ I b' rest)
+    (l : List α) (b : β) (hI : I b l) (G : β → γ) (Q : β → Prop) (hQ : ∀ b', I b' [] → Q b') :
+    ∃ b', Q b' ∧ (Outcome.foldlM' f b l).bind (fun b' => .ok (G b')) = .ok (G b') := by
+  obtain ⟨b', h1, h2⟩ := Outcome.foldlM'_ok f I hstep l b hI
+  exact ⟨b', hQ b' h2, by rw [h1]; rfl⟩
+
+def swapTL (k : PoolKey) (swaps : List Tx) : Nat :=
+  satSum (swaps.map fun tx => if (tx.outputs.headD default).denom = k.left then (tx.outputs.headD default).value else 0)
+def swapTR (k : PoolKey) (swaps : List Tx) : Nat :=
+  satSum (swaps.map fun tx => if (tx.outputs.headD default).denom = k.right then (tx.outputs.headD default).value else 0)
+
+theorem processSwapsForPool_ok (k : PoolKey) (st : State) (swaps : List Tx) (pool pool' : PoolState)
+    (lw rw : Nat) (P : CoinMap → Prop)
+    (hpool : st.pools.get k = some pool)
+    (hsm : pool.swapMany (swapTL k swaps) (swapTR k swaps) = .ok (pool', lw, rw))
+    (hsw : ∀ tx ∈ swaps, ∃ o rest, tx.outputs = o :: rest ∧ 0 < o.value ∧ (o.denom = k.left ∨ o.denom = k.right))
+    (hP0 : P st.coins)
+    (hPstep : ∀ coins tx o rest cd, tx ∈ swaps → tx.outputs = o :: rest → P coins → cd.covhash = o.covhash →
+      P (coins.insertCoin ⟨tx.hash, 0⟩ { coinData := cd, height := st.height } st.tip906)) :
+    ∃ coins, P coins ∧
+      processSwapsForPool k st swaps = .ok { st with coins := coins, pools := st.pools.set k pool' } := by
+  unfold swapTL swapTR at hsm
+  unfold processSwapsForPool
+  simp only [hpool, hsm]
+  refine bind_fold_ok _ (fun c rest => P c ∧ ∀ tx ∈ rest, tx ∈ swaps) ?_ swaps st.coins
+    ⟨hP0, fun _ h => h⟩ _ P (fun _ h => h.1)
+  intro coins tx rest ⟨hPc, hmem⟩
+  have htx : tx ∈ swaps := hmem tx List.mem_cons_self
+  obtain ⟨o, orest, ho, hpos, hden⟩ := hsw tx htx
+  have hhd : tx.outputs.headD default = o := by rw [ho]; rfl
+  simp only [hhd]
+  have hrest : ∀ tx' ∈ rest, tx' ∈ swaps := fun tx' h => hmem tx' (List.mem_cons_of_mem _ h)
+  by_cases hd : o.denom = k.left
+  · rw [if_pos hd]
+    have hTL : 0 < satSum (swaps.map fun tx =>
+        if (tx.outputs.headD default).denom = k.left then (tx.outputs.headD default).value else 0) :=
+      satSum_pos ⟨o.value, List.mem_map.mpr ⟨tx, htx, by rw [hhd, if_pos hd]⟩, hpos⟩
+    obtain ⟨v, hv⟩ := multiplyFrac_ok rw o.value _ hTL
+    rw [hv]
+    exact ⟨_, rfl, hPstep _ _ _ _ _ htx ho hPc rfl, hrest⟩
+  · rw [if_neg hd]
+    have hd' : o.denom = k.right := by rcases hden with h | h; exact absurd h hd; exact h
+    have hTR : 0 < satSum (swaps.map fun tx =>
+        if (tx.outputs.headD default).denom = k.right then (tx.outputs.headD default).value else 0) :=
+      satSum_pos ⟨o.value, List.mem_map.mpr ⟨tx, htx, by rw [hhd, if_pos hd']⟩, hpos⟩
+    obtain ⟨v, hv⟩ := multiplyFrac_ok lw o.value _ hTR
+    rw [hv]
+    exact ⟨_, rfl, hPstep _ _ _ _ _ htx ho hPc rfl, hrest⟩
+
+def depTL (deps : List Tx) : Nat := satSum (deps.map fun tx => (tx.outputs.headD default).value)
+def depTR (deps : List Tx) : Nat := satSum (deps.map fun tx => ((tx.outputs.drop 1).headD default).value)
+
+theorem processDepositsForPool_ok (env : Env) (k : PoolKey) (st : State) (deps : List Tx) (pool' : PoolState)
+    (tl : Nat) (P : CoinMap → Prop)
+    (hdep : ((st.pools.get k).getD PoolState.newEmpty).deposit (depTL deps) (depTR deps) = .ok (pool', tl))
+    (hd : ∀ tx ∈ deps, ∃ o0 o1 rest, tx.outputs = o0 :: o1 :: rest ∧ 0 < o0.value ∧ 0 < o1.value)
+    (hP0 : P st.coins)
+    (hPins : ∀ coins tx o0 o1 rest cd, tx ∈ deps → tx.outputs = o0 :: o1 :: rest → P coins →
+      cd.covhash = o0.covhash →
+      P (coins.insertCoin ⟨tx.hash, 0⟩ { coinData := cd, height := st.height } st.tip906))
+    (hPrem : ∀ coins id, P coins → ∃ coins', coins.removeCoin id st.tip906 = .ok coins' ∧ P coins') :
+    ∃ coins, P coins ∧
+      processDepositsForPool env k st deps = .ok { st with coins := coins, pools := st.pools.set k pool' } := by
+  unfold depTL depTR at hdep
+  unfold processDepositsForPool
+  simp only [hdep]
+  refine bind_fold_ok _ (fun c rest => P c ∧ ∀ tx ∈ rest, tx ∈ deps) ?_ deps st.coins
+    ⟨hP0, fun _ h => h⟩ _ P (fun _ h => h.1)
+  intro coins tx rest ⟨hPc, hmem⟩
+  have htx : tx ∈ deps := hmem tx List.mem_cons_self
+  obtain ⟨o0, o1, orest, ho, hpos0, hpos1⟩ := hd tx htx
+  have hh0 : tx.outputs.headD default = o0 := by rw [ho]; rfl
+  have hh1 : (tx.outputs.drop 1).headD default = o1 := by rw [ho]; rfl
+  have hrest : ∀ tx' ∈ rest, tx' ∈ deps := fun tx' h => hmem tx' (List.mem_cons_of_mem _ h)
+  have hT : 0 < satSum (deps.map fun tx =>
+      mtsqrt (tx.outputs.headD default).value ((tx.outputs.drop 1).headD default).value) :=
+    satSum_pos ⟨mtsqrt o0.value o1.value, List.mem_map.mpr ⟨tx, htx, by rw [hh0, hh1]⟩,
+      mtsqrt_pos hpos0 hpos1⟩
+  obtain ⟨v, hv⟩ := multiplyFrac_ok tl (mtsqrt o0.value o1.value) _ hT
+  simp only [hh0, hh1]
+  rw [hv]
+  simp only [Outcome.bind]
+  have hins := hPins coins tx o0 o1 orest { o0 with denom := liqTokenDenom env k, value := v } htx ho hPc rfl
+  by_cases hleg : legacyDeposit st = true
+  · rw [if_pos hleg]; exact ⟨_, rfl, hins, hrest⟩
+  · rw [if_neg hleg]
+    obtain ⟨c', hc', hP'⟩ := hPrem _ (outCoinID tx 1) hins
+    exact ⟨c', hc', hP', hrest⟩
+
+theorem bind_fold_ok' {α β γ} (f : β → α → Outcome β) (I : β → List α → Prop)
+    (hstep : ∀ b a rest, I b (a :: rest) → ∃ b', f b a = .ok b' ∧ I b' rest)
+    (l : List α) (b : β) (hI : I b l) (G : β → γ) :
+    ∃ b', (Outcome.foldlM' f b l).bind (fun b' => .ok (G b')) = .ok (G b') := by
+  obtain ⟨b', h1, _⟩ := Outcome.foldlM'_ok f I hstep l b hI
+  exact ⟨b', by rw [h1]; rfl⟩
+
+def wdT (reqs : List Tx) : Nat := satSum (reqs.map fun tx => (tx.outputs.headD default).value)
+
+theorem processWithdrawalsForPool_skip (k : PoolKey) (st : State) (reqs : List Tx) (pool : PoolState)
+    (hpool : st.pools.get k = some pool) (hgt : wdT reqs > pool.liqs) :
+    processWithdrawalsForPool k st reqs = .ok st := by
+  unfold wdT at hgt
+  unfold processWithdrawalsForPool
+  simp only [hpool]
+  rw [if_pos hgt]
+
+theorem processWithdrawalsForPool_ok (k : PoolKey) (st : State) (reqs : List Tx) (pool pool' : PoolState)
+    (tl tr : Nat) (hpool : st.pools.get k = some pool) (hle : ¬ wdT reqs > pool.liqs)
+    (hw : pool.withdraw (wdT reqs) = .ok (pool', tl, tr)) (hpos : 0 < wdT reqs) :
+    ∃ coins,
+      processWithdrawalsForPool k st reqs = .ok { st with coins := coins, pools := st.pools.set k pool' } := by
+  unfold wdT at hle hw hpos
+  unfold processWithdrawalsForPool
+  simp only [hpool]
+  rw [if_neg hle]
+  simp only [hw]
+  refine bind_fold_ok' _ (fun _ _ => True) ?_ reqs st.coins trivial _
+  · intro coins tx rest _
+    obtain ⟨vl, hvl⟩ := multiplyFrac_ok tl (tx.outputs.headD default).value _ hpos
+    obtain ⟨vr, hvr⟩ := multiplyFrac_ok tr (tx.outputs.headD default).value _ hpos
+    simp only [hvl, hvr, Outcome.bind]
+    exact ⟨_, rfl, trivial⟩
+
+/-! ### the invariants of the settlement phases -/
+
+/-- what no step of sealing before the proposer action touches -/
+structure SameBase (s st : State) : Prop where
+  txs : st.txs = s.txs
+  height : st.height = s.height
+  network : st.network = s.network
+  feePool : st.feePool = s.feePool
+  tips : st.tips = s.tips
+
+theorem SameBase.refl (s : State) : SameBase s s := ⟨rfl, rfl, rfl, rfl, rfl⟩
+
+theorem SameBase.tip906 {s st : State} (h : SameBase s st) : st.tip906 = s.tip906 := by
+  simp [State.tip906, State.tipCondition, h.height, h.network]
+theorem SameBase.tip902 {s st : State} (h : SameBase s st) : st.tip902 = s.tip902 := by
+  simp [State.tip902, State.tipCondition, h.height, h.network]
+theorem SameBase.tip909 {s st : State} (h : SameBase s st) : st.tip909 = s.tip909 := by
+  simp [State.tip909, State.tipCondition, h.height, h.network]
+
+/-- the builtin pools of a state (ERG/SYM only once TIP-902 is active) -/
+def builtinsOf (tip902 : Bool) : List PoolKey :=
+  if tip902 then [poolMelSym, poolMelErg, poolErgSym] else [poolMelSym, poolMelErg]
+
+theorem melSym_mem_builtinsOf (t : Bool) : poolMelSym ∈ builtinsOf t := by
+  unfold builtinsOf; split <;> simp
+theorem melErg_mem_builtinsOf (t : Bool) : poolMelErg ∈ builtinsOf t := by
+  unfold builtinsOf; split <;> simp
+theorem mem_builtinsOf_three {t : Bool} {k : PoolKey} (h : k ∈ builtinsOf t) :
+    k ∈ [poolMelSym, poolMelErg, poolErgSym] := by
+  unfold builtinsOf at h
+  split at h
+  · exact h
+  · simp only [List.mem_cons, List.not_mem_nil, or_false] at h ⊢
+    rcases h with h | h
+    · exact Or.inl h
+    · exact Or.inr (Or.inl h)
+
+structure PoolsOk (tip902 : Bool) (pools : AList PoolKey PoolState) : Prop where
+  sane : ∀ k p, pools.get k = some p → p.liqs ≠ 0 → 0 < p.lefts ∧ 0 < p.rights
+  builtins : ∀ k ∈ builtinsOf tip902, ∃ p, pools.get k = some p ∧ 0 < p.lefts ∧ 0 < p.rights ∧ 0 < p.liqs
+
+theorem PoolsOk.builtin_get {t : Bool} {pools : AList PoolKey PoolState} (h : PoolsOk t pools) {k : PoolKey}
+    (hk : k ∈ builtinsOf t) {p : PoolState} (hp : pools.get k = some p) :
+    0 < p.lefts ∧ 0 < p.rights ∧ 0 < p.liqs := by
+  obtain ⟨q, hq, h1⟩ := h.builtins k hk
+  rw [hp] at hq; cases hq; exact h1
+
+theorem isSome_get_set {pools : AList PoolKey PoolState} {k k' : PoolKey} (p' : PoolState)
+    (h : (pools.get k').isSome = true) : ((pools.set k p').get k').isSome = true := by
+  by_cases e : k' = k
+  · subst e; rw [AList.get_set_self]; rfl
+  · rw [AList.get_set_ne _ _ e]; exact h
+
+theorem PoolsOk.set {t : Bool} {pools : AList PoolKey PoolState} (h : PoolsOk t pools) (k : PoolKey)
+    (p' : PoolState) (h1 : p'.liqs ≠ 0 → 0 < p'.lefts ∧ 0 < p'.rights)
+    (h2 : k ∈ builtinsOf t → 0 < p'.lefts ∧ 0 < p'.rights ∧ 0 < p'.liqs) : PoolsOk t (pools.set k p') := by
+  refine ⟨?_, ?_⟩
+  · intro k' p hp
+    by_cases e : k' = k
+    · subst e; rw [AList.get_set_self] at hp; cases hp; exact h1
+    · rw [AList.get_set_ne _ _ e] at hp; exact h.sane k' p hp
+  · intro k' hk'
+    by_cases e : k' = k
+    · subst e; rw [AList.get_set_self]; exact ⟨p', rfl, h2 hk'⟩
+    · rw [AList.get_set_ne _ _ e]; exact h.builtins k' hk'
+
+/-- the liquidity the block's withdrawal transactions of pool `k` ask to redeem -/
+def drainOf (txs : List Tx) (k : PoolKey) : Nat :=
+  ((txs.filter fun tx => tx.kind = .liqWithdraw ∧ canonicalPoolKey tx.data = some k).map
+    fun tx => (tx.outputs.headD default).value).sum
+
+def NotDrained (t : Bool) (txs : List Tx) (pools : AList PoolKey PoolState) : Prop :=
+  ∀ k ∈ builtinsOf t, ∀ p, pools.get k = some p → drainOf txs k < p.liqs
+
+/-- the MEL the first outputs of the block's transactions can pay into a pool -/
+def melInflow (txs : List Tx) : Nat :=
+  (txs.map fun tx => if (tx.outputs.headD default).denom = .mel then (tx.outputs.headD default).value else 0).sum
+
+theorem sum_requests_le (f : Tx → Nat) (q : Tx → Bool) (txs : List Tx) (k : PoolKey) :
+    ((transactionsForPool (txs.filter q) k).map f).sum ≤ (txs.map f).sum := by
+  unfold transactionsForPool
+  exact Nat.le_trans (sum_filter_le _ _ _) (sum_filter_le _ _ _)
+
+theorem poolMelSym_left : poolMelSym.left = .mel := by decide
+
+/-! ### the swap phase -/
+
+theorem processSwaps_ok (s st0 : State) (B V : Nat)
+    (hbase : SameBase s st0) (hn : (s.txs.map (·.hash)).Nodup)
+    (hpo : PoolsOk s.tip902 st0.pools) (hci : CoinsInv s.txs s.tip906 st0.coins)
+    (hnd : NotDrained s.tip902 s.txs st0.pools) (hV : melInflow s.txs ≤ V)
+    (hB : ∀ p, st0.pools.get poolMelSym = some p → p.lefts ≤ B) :
+    ∃ st1, processSwaps st0 = .ok st1 ∧ SameBase s st1 ∧ PoolsOk s.tip902 st1.pools ∧
+      CoinsInv s.txs s.tip906 st1.coins ∧ NotDrained s.tip902 s.txs st1.pools ∧
+      (∀ p, st1.pools.get poolMelSym = some p → p.lefts ≤ B + V) := by
+  unfold processSwaps
+  simp only
+  generalize hreqs : st0.txs.filter (isSwapRequest st0) = reqs
+  have hks : ∀ k ∈ extractPoolKeysSorted reqs, ∃ p, st0.pools.get k = some p ∧ 0 < p.lefts ∧ 0 < p.rights := by
+    intro k hk
+    obtain ⟨tx, htx, hck⟩ := mem_extractPoolKeysSorted hk
+    rw [← hreqs] at htx
+    obtain ⟨k', o, rest, p, hck', _, _, hp, h1, h2, _⟩ := isSwapRequest_full (List.mem_filter.mp htx).2
+    rw [hck] at hck'; cases hck'
+    exact ⟨p, hp, h1, h2⟩
+  have hsw : ∀ k, ∀ tx ∈ transactionsForPool reqs k, tx ∈ s.txs ∧
+      ∃ o rest, tx.outputs = o :: rest ∧ 0 < o.value ∧ (o.denom = k.left ∨ o.denom = k.right) := by
+    intro k tx htx
+    obtain ⟨htx, hck⟩ := mem_transactionsForPool'.mp htx
+    rw [← hreqs] at htx
+    obtain ⟨hm, hreq⟩ := List.mem_filter.mp htx
+    obtain ⟨k', o, rest, p, hck', ho, hpos, _, _, _, hden⟩ := isSwapRequest_full hreq
+    rw [hck] at hck'; cases hck'
+    exact ⟨hbase.txs ▸ hm, o, rest, ho, hpos, hden⟩
+  refine Exists.elim (Outcome.foldlM'_ok
+    (fun st k => processSwapsForPool k st (transactionsForPool reqs k))
+    (fun st rest => rest.Nodup ∧ SameBase s st ∧ PoolsOk s.tip902 st.pools ∧ CoinsInv s.txs s.tip906 st.coins ∧
+      NotDrained s.tip902 s.txs st.pools ∧
+      (∀ k ∈ extractPoolKeysSorted reqs, ∃ p, st.pools.get k = some p ∧ 0 < p.lefts ∧ 0 < p.rights) ∧
+      (poolMelSym ∈ rest → ∀ p, st.pools.get poolMelSym = some p → p.lefts ≤ B) ∧
+      (∀ p, st.pools.get poolMelSym = some p → p.lefts ≤ B + V) ∧
+      (∀ k ∈ rest, k ∈ extractPoolKeysSorted reqs))
+    ?_ (extractPoolKeysSorted reqs) st0
+    ⟨extractPoolKeysSorted_nodup _, hbase, hpo, hci, hnd, hks, fun _ => hB,
+      fun p hp => Nat.le_trans (hB p hp) (Nat.le_add_right _ _), fun _ h => h⟩)
+    (fun st1 ⟨h1, hI⟩ => ⟨st1, h1, hI.2.1, hI.2.2.1, hI.2.2.2.1, hI.2.2.2.2.1, hI.2.2.2.2.2.2.2.1⟩)
+  · intro st k rest ⟨hnod, hb, hpo', hci', hnd', hks', hB1, hB2, hsub⟩
+    have hnod' := List.nodup_cons.mp hnod
+    obtain ⟨pool, hpool, hl, hr⟩ := hks' k (hsub k List.mem_cons_self)
+    obtain ⟨pool', lw, rw, hsm, hl', hr', hliq, hle⟩ :=
+      swapMany_spec pool (swapTL k (transactionsForPool reqs k)) (swapTR k (transactionsForPool reqs k))
+        hl hr (satSum_le_max _) (satSum_le_max _)
+    obtain ⟨coins, hP, hok⟩ := processSwapsForPool_ok k st (transactionsForPool reqs k) pool pool' lw rw
+      (CoinsInv s.txs s.tip906) hpool hsm (fun tx htx => (hsw k tx htx).2) hci' (by
+        intro coins tx o orest cd htx ho hPc hcd
+        rw [hb.tip906]
+        exact hPc.insert hn (hsw k tx htx).1 (i := 0) (o := o) (by rw [ho]; rfl) hcd)
+    refine ⟨_, hok, hnod'.2, ⟨hb.txs, hb.height, hb.network, hb.feePool, hb.tips⟩, ?_, hP, ?_, ?_, ?_, ?_, ?_⟩
+    · exact hpo'.set k pool' (fun _ => ⟨hl', hr'⟩)
+        (fun hk => ⟨hl', hr', by rw [hliq]; exact (hpo'.builtin_get hk hpool).2.2⟩)
+    · intro k' hk' p hp
+      simp only at hp
+      by_cases e : k' = k
+      · subst e; rw [AList.get_set_self] at hp; cases hp; rw [hliq]; exact hnd' k' hk' pool hpool
+      · rw [AList.get_set_ne _ _ e] at hp; exact hnd' k' hk' p hp
+    · intro k' hk'
+      simp only
+      by_cases e : k' = k
+      · subst e; rw [AList.get_set_self]; exact ⟨pool', rfl, hl', hr'⟩
+      · rw [AList.get_set_ne _ _ e]; exact hks' k' hk'
+    · intro hmem p hp
+      simp only at hp
+      have e : poolMelSym ≠ k := by intro e; rw [← e] at hnod'; exact hnod'.1 hmem
+      rw [AList.get_set_ne _ _ e] at hp
+      exact hB1 (List.mem_cons_of_mem _ hmem) p hp
+    · intro p hp
+      simp only at hp
+      by_cases e : poolMelSym = k
+      · subst e
+        rw [AList.get_set_self] at hp; cases hp
+        have h1 := hB1 List.mem_cons_self pool hpool
+        have h2 : swapTL poolMelSym (transactionsForPool reqs poolMelSym) ≤ V := by
+          refine Nat.le_trans ?_ hV
+          unfold swapTL
+          refine Nat.le_trans (satSum_le_sum _) ?_
+          rw [← hreqs, poolMelSym_left, ← hbase.txs]
+          exact sum_requests_le _ _ _ _
+        omega
+      · rw [AList.get_set_ne _ _ e] at hp; exact hB2 p hp
+    · exact fun k' hk' => hsub k' (List.mem_cons_of_mem _ hk')
+
+/-! ### the deposit phase -/
+
+theorem processDeposits_ok (env : Env) (s st0 : State) (B V : Nat)
+    (hbase : SameBase s st0) (hn : (s.txs.map (·.hash)).Nodup)
+    (hpo : PoolsOk s.tip902 st0.pools) (hci : CoinsInv s.txs s.tip906 st0.coins)
+    (hnd : NotDrained s.tip902 s.txs st0.pools) (hV : melInflow s.txs ≤ V)
+    (hDmax : ∀ k ∈ builtinsOf s.tip902, drainOf s.txs k < U128_MAX)
+    (hB : ∀ p, st0.pools.get poolMelSym = some p → p.lefts ≤ B) :
+    ∃ st1, processDeposits env st0 = .ok st1 ∧ SameBase s st1 ∧ PoolsOk s.tip902 st1.pools ∧
+      NotDrained s.tip902 s.txs st1.pools ∧
+      (∀ p, st1.pools.get poolMelSym = some p → p.lefts ≤ B + V) := by
+  unfold processDeposits
+  simp only
+  generalize hreqs : st0.txs.filter (isDepositRequest st0) = reqs
+  have hks : ∀ k ∈ extractPoolKeysSorted reqs, ∃ tx, tx ∈ transactionsForPool reqs k := by
+    intro k hk
+    obtain ⟨tx, htx, hck⟩ := mem_extractPoolKeysSorted hk
+    exact ⟨tx, mem_transactionsForPool'.mpr ⟨htx, hck⟩⟩
+  have hdp : ∀ k, ∀ tx ∈ transactionsForPool reqs k, tx ∈ s.txs ∧
+      ∃ o0 o1 rest, tx.outputs = o0 :: o1 :: rest ∧ 0 < o0.value ∧ 0 < o1.value ∧ o0.denom = k.left := by
+    intro k tx htx
+    obtain ⟨htx, hck⟩ := mem_transactionsForPool'.mp htx
+    rw [← hreqs] at htx
+    obtain ⟨hm, hreq⟩ := List.mem_filter.mp htx
+    obtain ⟨k', o0, o1, rest, hck', ho, hp0, hp1, hden⟩ := isDepositRequest_full hreq
+    rw [hck] at hck'; cases hck'
+    exact ⟨hbase.txs ▸ hm, o0, o1, rest, ho, hp0, hp1, hden⟩
+  refine Exists.elim (Outcome.foldlM'_ok
+    (fun st k => processDepositsForPool env k st (transactionsForPool reqs k))
+    (fun st rest => rest.Nodup ∧ SameBase s st ∧ PoolsOk s.tip902 st.pools ∧ CoinsInv s.txs s.tip906 st.coins ∧
+      NotDrained s.tip902 s.txs st.pools ∧
+      (poolMelSym ∈ rest → ∀ p, st.pools.get poolMelSym = some p → p.lefts ≤ B) ∧
+      (∀ p, st.pools.get poolMelSym = some p → p.lefts ≤ B + V) ∧
+      (∀ k ∈ rest, k ∈ extractPoolKeysSorted reqs))
+    ?_ (extractPoolKeysSorted reqs) st0
+    ⟨extractPoolKeysSorted_nodup _, hbase, hpo, hci, hnd, fun _ => hB,
+      fun p hp => Nat.le_trans (hB p hp) (Nat.le_add_right _ _), fun _ h => h⟩)
+    (fun st1 ⟨h1, hI⟩ => ⟨st1, h1, hI.2.1, hI.2.2.1, hI.2.2.2.2.1, hI.2.2.2.2.2.2.1⟩)
+  intro st k rest ⟨hnod, hb, hpo', hci', hnd', hB1, hB2, hsub⟩
+  have hnod' := List.nodup_cons.mp hnod
+  obtain ⟨tx0, htx0⟩ := hks k (hsub k List.mem_cons_self)
+  obtain ⟨_, a0, a1, arest, ha, hpa0, hpa1, _⟩ := hdp k tx0 htx0
+  have hTL : 0 < depTL (transactionsForPool reqs k) :=
+    satSum_pos ⟨a0.value, List.mem_map.mpr ⟨tx0, htx0, by rw [ha]; rfl⟩, hpa0⟩
+  have hTR : 0 < depTR (transactionsForPool reqs k) :=
+    satSum_pos ⟨a1.value, List.mem_map.mpr ⟨tx0, htx0, by rw [ha]; rfl⟩, hpa1⟩
+  have hsane : ((st.pools.get k).getD PoolState.newEmpty).liqs ≠ 0 →
+      0 < ((st.pools.get k).getD PoolState.newEmpty).lefts ∧ 0 < ((st.pools.get k).getD PoolState.newEmpty).rights := by
+    cases hg : st.pools.get k with
+    | none => intro h; exact absurd rfl h
+    | some p => exact hpo'.sane k p hg
+  obtain ⟨pool', m, hdep, hpos, hD, hle⟩ := deposit_spec _ (depTL (transactionsForPool reqs k))
+    (depTR (transactionsForPool reqs k)) hsane
+  obtain ⟨coins, hP, hok⟩ := processDepositsForPool_ok env k st (transactionsForPool reqs k) pool' m
+    (CoinsInv s.txs s.tip906) hdep
+    (fun tx htx => by
+      obtain ⟨_, o0, o1, r, ho, h0, h1, _⟩ := hdp k tx htx
+      exact ⟨o0, o1, r, ho, h0, h1⟩) hci' (by
+      intro coins tx o0 o1 orest cd htx ho hPc hcd
+      rw [hb.tip906]
+      exact hPc.insert hn (hdp k tx htx).1 (i := 0) (o := o0) (by rw [ho]; rfl) hcd) (by
+      intro coins id hPc
+      rw [hb.tip906]
+      exact hPc.remove id)
+  have hU := U128_MAX_pos
+  refine ⟨_, hok, hnod'.2, ⟨hb.txs, hb.height, hb.network, hb.feePool, hb.tips⟩, ?_, hP, ?_, ?_, ?_, ?_⟩
+  · refine hpo'.set k pool' (fun _ => hpos hTL hTR) (fun hk => ?_)
+    obtain ⟨p, hp, _, _, hliq⟩ := hpo'.builtins k hk
+    have := hpos hTL hTR
+    exact ⟨this.1, this.2, hD 0 (by rw [hp]; exact hliq) hU⟩
+  · intro k' hk' p hp
+    simp only at hp
+    by_cases e : k' = k
+    · subst e
+      rw [AList.get_set_self] at hp; cases hp
+      obtain ⟨q, hq, _⟩ := hpo'.builtins k' hk'
+      exact hD _ (by rw [hq]; exact hnd' k' hk' q hq) (hDmax k' hk')
+    · rw [AList.get_set_ne _ _ e] at hp; exact hnd' k' hk' p hp
+  · intro hmem p hp
+    simp only at hp
+    have e : poolMelSym ≠ k := by intro e; rw [← e] at hnod'; exact hnod'.1 hmem
+    rw [AList.get_set_ne _ _ e] at hp
+    exact hB1 (List.mem_cons_of_mem _ hmem) p hp
+  · intro p hp
+    simp only at hp
+    by_cases e : poolMelSym = k
+    · subst e
+      rw [AList.get_set_self] at hp; cases hp
+      obtain ⟨q, hq, _⟩ := hpo'.builtins poolMelSym (melSym_mem_builtinsOf _)
+      have h1 := hB1 List.mem_cons_self q hq
+      rw [hq] at hle
+      have h2 : depTL (transactionsForPool reqs poolMelSym) ≤ V := by
+        refine Nat.le_trans ?_ hV
+        unfold depTL
+        refine Nat.le_trans (satSum_le_sum _) ?_
+        rw [sum_map_congr_mem _ (fun tx => if (tx.outputs.headD default).denom = .mel then
+          (tx.outputs.headD default).value else 0)]
+        · rw [← hreqs, ← hbase.txs]
+          exact sum_requests_le _ _ _ _
+        · intro tx htx
+          obtain ⟨_, o0, o1, r, ho, _, _, hden⟩ := hdp poolMelSym tx htx
+          have hh : tx.outputs.headD default = o0 := by rw [ho]; rfl
+          rw [hh, if_pos (by rw [hden]; exact poolMelSym_left)]
+      simp only [Option.getD_some] at hle
+      omega
+    · rw [AList.get_set_ne _ _ e] at hp; exact hB2 p hp
+  · exact fun k' hk' => hsub k' (List.mem_cons_of_mem _ hk')
+
+/-! ### the withdrawal phase -/
+
+theorem wdT_le_drainOf (env : Env) (s st0 : State) (hbase : SameBase s st0) (k : PoolKey) :
+    wdT (transactionsForPool (st0.txs.filter (isWithdrawRequest env st0)) k) ≤ drainOf s.txs k := by
+  unfold wdT drainOf transactionsForPool
+  refine Nat.le_trans (satSum_le_sum _) ?_
+  rw [List.filter_filter, hbase.txs]
+  apply sum_filter_le_of_imp
+  intro tx _ h
+  simp only [Bool.and_eq_true, decide_eq_true_eq] at h ⊢
+  first
+    | exact ⟨(isWithdrawRequest_full h.1).1, h.2⟩
+    | exact ⟨(isWithdrawRequest_full h.2).1, h.1⟩
+
+theorem processWithdrawals_ok (env : Env) (s st0 : State) (B : Nat)
+    (hbase : SameBase s st0) (hpo : PoolsOk s.tip902 st0.pools)
+    (hnd : NotDrained s.tip902 s.txs st0.pools)
+    (hB : ∀ p, st0.pools.get poolMelSym = some p → p.lefts ≤ B) :
+    ∃ st1, processWithdrawals env st0 = .ok st1 ∧ SameBase s st1 ∧ PoolsOk s.tip902 st1.pools ∧
+      (∀ p, st1.pools.get poolMelSym = some p → p.lefts ≤ B) := by
+  have hdrain := wdT_le_drainOf env s st0 hbase
+  unfold processWithdrawals
+  simp only
+  generalize hreqs : st0.txs.filter (isWithdrawRequest env st0) = reqs at hdrain
+  have hks : ∀ k ∈ extractPoolKeysSorted reqs, (st0.pools.get k).isSome = true ∧
+      ∃ tx, tx ∈ transactionsForPool reqs k := by
+    intro k hk
+    obtain ⟨tx, htx, hck⟩ := mem_extractPoolKeysSorted hk
+    refine ⟨?_, tx, mem_transactionsForPool'.mpr ⟨htx, hck⟩⟩
+    rw [← hreqs] at htx
+    obtain ⟨_, k', o0, hck', _, _, hs⟩ := isWithdrawRequest_full (List.mem_filter.mp htx).2
+    rw [hck] at hck'; cases hck'; exact hs
+  have hwd : ∀ k, ∀ tx ∈ transactionsForPool reqs k, ∃ o0, tx.outputs = [o0] ∧ 0 < o0.value := by
+    intro k tx htx
+    obtain ⟨htx, hck⟩ := mem_transactionsForPool'.mp htx
+    rw [← hreqs] at htx
+    obtain ⟨_, k', o0, _, ho, hp0, _⟩ := isWithdrawRequest_full (List.mem_filter.mp htx).2
+    exact ⟨o0, ho, hp0⟩
+  refine Exists.elim (Outcome.foldlM'_ok
+    (fun st k => processWithdrawalsForPool k st (transactionsForPool reqs k))
+    (fun st rest => rest.Nodup ∧ SameBase s st ∧ PoolsOk s.tip902 st.pools ∧
+      (∀ k ∈ rest, k ∈ builtinsOf s.tip902 → ∀ p, st.pools.get k = some p → drainOf s.txs k < p.liqs) ∧
+      (∀ k ∈ extractPoolKeysSorted reqs, (st.pools.get k).isSome = true) ∧
+      (∀ p, st.pools.get poolMelSym = some p → p.lefts ≤ B) ∧
+      (∀ k ∈ rest, k ∈ extractPoolKeysSorted reqs))
+    ?_ (extractPoolKeysSorted reqs) st0
+    ⟨extractPoolKeysSorted_nodup _, hbase, hpo, fun k _ hk => hnd k hk, fun k hk => (hks k hk).1, hB,
+      fun _ h => h⟩)
+    (fun st1 ⟨h1, hI⟩ => ⟨st1, h1, hI.2.1, hI.2.2.1, hI.2.2.2.2.2.1⟩)
+  intro st k rest ⟨hnod, hb, hpo', hnd', hex, hB', hsub⟩
+  have hnod' := List.nodup_cons.mp hnod
+  have hkks := hsub k List.mem_cons_self
+  obtain ⟨pool, hpool⟩ := Option.isSome_iff_exists.mp (hex k hkks)
+  have hsub' : ∀ k' ∈ rest, k' ∈ extractPoolKeysSorted reqs := fun k' hk' => hsub k' (List.mem_cons_of_mem _ hk')
+  by_cases hgt : wdT (transactionsForPool reqs k) > pool.liqs
+  · refine ⟨st, processWithdrawalsForPool_skip k st _ pool hpool hgt, hnod'.2, hb, hpo', ?_, hex, hB', hsub'⟩
+    exact fun k' hk' => hnd' k' (List.mem_cons_of_mem _ hk')
+  · obtain ⟨tx0, htx0⟩ := (hks k hkks).2
+    obtain ⟨a0, ha, hpa0⟩ := hwd k tx0 htx0
+    have hT : 0 < wdT (transactionsForPool reqs k) :=
+      satSum_pos ⟨a0.value, List.mem_map.mpr ⟨tx0, htx0, by rw [ha]; rfl⟩, hpa0⟩
+    obtain ⟨pool', tl, tr, hw, hliq, hlefts, hpos⟩ := withdraw_spec pool _ hT (by omega)
+    obtain ⟨coins, hok⟩ := processWithdrawalsForPool_ok k st _ pool pool' tl tr hpool hgt hw hT
+    refine ⟨_, hok, hnod'.2, ⟨hb.txs, hb.height, hb.network, hb.feePool, hb.tips⟩, ?_, ?_, ?_, ?_, hsub'⟩
+    · refine hpo'.set k pool' (fun hne => ?_) (fun hk => ?_)
+      · have hlt : wdT (transactionsForPool reqs k) < pool.liqs := by omega
+        obtain ⟨h1, h2⟩ := hpo'.sane k pool hpool (by omega)
+        exact hpos h1 h2 hlt
+      · have h1 := hnd' k List.mem_cons_self hk pool hpool
+        have h2 := hdrain k
+        have hlt : wdT (transactionsForPool reqs k) < pool.liqs := by omega
+        obtain ⟨h3, h4, _⟩ := hpo'.builtin_get hk hpool
+        have := hpos h3 h4 hlt
+        exact ⟨this.1, this.2, by omega⟩
+    · intro k' hk' hb' p hp
+      simp only at hp
+      have e : k' ≠ k := by intro e; rw [e] at hk'; exact hnod'.1 hk'
+      rw [AList.get_set_ne _ _ e] at hp
+      exact hnd' k' (List.mem_cons_of_mem _ hk') hb' p hp
+    · exact fun k' hk' => isSome_get_set _ (hex k' hk')
+    · intro p hp
+      simp only at hp
+      by_cases e : poolMelSym = k
+      · subst e
+        rw [AList.get_set_self] at hp; cases hp
+        have := hB' pool hpool
+        omega
+      · rw [AList.get_set_ne _ _ e] at hp; exact hB' p hp
+
+/-! ### pegging, cut into pieces (the pieces are literal copies of the text of `processPegging`) -/
+
+def pegGet (s : State) (k : PoolKey) : Outcome PoolState :=
+  match s.pools.get k with
+  | some p => .ok p
+  | none => .crash "melmint.rs: builtin pool missing (unwrap)"
+
+def pegXsd (s : State) : Outcome (Nat × Nat) :=
+  if s.tip902 then
+    (pegGet s poolErgSym).bind fun p =>
+      if p.rights = 0 then .crash "melswap.rs: implied_price Ratio::new(_, 0)"
+      else if p.lefts = 0 then .crash "melmint.rs: recip of zero"
+      else .ok (p.rights, p.lefts)
+  else
+    (pegGet s poolMelSym).bind fun ps =>
+    (pegGet s poolMelErg).bind fun pd =>
+      if ps.rights = 0 || pd.rights = 0 then .crash "melswap.rs: implied_price Ratio::new(_, 0)"
+      else if ps.lefts = 0 || pd.lefts = 0 then .crash "melmint.rs: recip of zero"
+      else .ok (ps.rights * pd.lefts, ps.lefts * pd.rights)
+
+def pegStep1 (sm : PoolState) (dm t : Nat) : Outcome PoolState :=
+  if dm > sm.lefts then
+    (sm.swapMany ((dm - sm.lefts) / t) 0).bind fun (p, _, _) => .ok p
+  else .ok sm
+
+def pegStep2 (sm1 : PoolState) (ds t : Nat) : Outcome PoolState :=
+  if ds > sm1.rights then
+    (sm1.swapMany 0 ((ds - sm1.rights) / t)).bind fun (p, _, _) => .ok p
+  else .ok sm1
+
+def pegTail (s : State) (sm : PoolState) (a b : Nat) : Outcome State :=
+  let throttler := if s.tip902 then THROTTLER_902 else THROTTLER_PRE
+  let konstant := sm.lefts * sm.rights
+  let infl := microergsIter s.height
+  let num := infl * a
+  let den := MICRO_CONVERTER * b
+  if num = 0 then .crash "melmint.rs: division by a zero desired exchange rate" else
+  let desiredMel := satU128 (Nat.sqrt (konstant * den / num))
+  let desiredSym := satU128 (Nat.sqrt (konstant * num / den))
+  (pegStep1 sm desiredMel throttler).bind fun sm1 =>
+  (pegStep2 sm1 desiredSym throttler).bind fun sm2 => .ok { s with pools := s.pools.set poolMelSym sm2 }
+
+theorem processPegging_eq (s : State) :
+    processPegging s = (pegXsd s).bind fun (a, b) => (pegGet s poolMelSym).bind fun sm => pegTail s sm a b := rfl
+
+theorem pegStep1_ok (sm : PoolState) (dm t : Nat) (hl : 0 < sm.lefts) (hr : 0 < sm.rights)
+    (hdm : dm ≤ U128_MAX) (ht : 200 ≤ t) :
+    ∃ p, pegStep1 sm dm t = .ok p ∧ 0 < p.lefts ∧ 0 < p.rights ∧ p.liqs = sm.liqs ∧
+      p.lefts ≤ sm.lefts + U128_MAX / 200 := by
+  unfold pegStep1
+  split
+  · have hle : (dm - sm.lefts) / t ≤ U128_MAX / 200 :=
+      Nat.le_trans (Nat.div_le_div_left ht (by omega)) (Nat.div_le_div_right (by omega))
+    obtain ⟨p, lw, rw, e, h1, h2, h3, h4⟩ := swapMany_spec sm ((dm - sm.lefts) / t) 0 hl hr
+      (Nat.le_trans hle (Nat.div_le_self _ _)) (Nat.zero_le _)
+    rw [e]
+    exact ⟨p, rfl, h1, h2, h3, by omega⟩
+  · exact ⟨sm, rfl, hl, hr, rfl, by omega⟩
+
+theorem pegStep2_ok (sm : PoolState) (ds t : Nat) (hl : 0 < sm.lefts) (hr : 0 < sm.rights)
+    (hds : ds ≤ U128_MAX) :
+    ∃ p, pegStep2 sm ds t = .ok p ∧ 0 < p.lefts ∧ 0 < p.rights ∧ p.liqs = sm.liqs ∧ p.lefts ≤ sm.lefts := by
+  unfold pegStep2
+  split
+  · have hle : (ds - sm.rights) / t ≤ U128_MAX :=
+      Nat.le_trans (Nat.div_le_self _ _) (by omega)
+    obtain ⟨p, lw, rw, e, h1, h2, h3, h4⟩ := swapMany_spec sm 0 ((ds - sm.rights) / t) hl hr
+      (Nat.zero_le _) hle
+    rw [e]
+    exact ⟨p, rfl, h1, h2, h3, by omega⟩
+  · exact ⟨sm, rfl, hl, hr, rfl, by omega⟩
+
+theorem pegTail_ok (s : State) (sm : PoolState) (a b : Nat) (hl : 0 < sm.lefts) (hr : 0 < sm.rights)
+    (ha : 0 < a) :
+    ∃ p, pegTail s sm a b = .ok { s with pools := s.pools.set poolMelSym p } ∧ 0 < p.lefts ∧ 0 < p.rights ∧
+      p.liqs = sm.liqs ∧ p.lefts ≤ sm.lefts + U128_MAX / 200 := by
+  unfold pegTail
+  simp only
+  rw [if_neg (Nat.ne_of_gt (Nat.mul_pos (microergsIter_pos _) ha))]
+  have ht : 200 ≤ (if s.tip902 = true then THROTTLER_902 else THROTTLER_PRE) := by
+    split <;> decide
+  obtain ⟨p1, e1, h1, h2, h3, h4⟩ := pegStep1_ok sm _ _ hl hr (satU128_le_max _) ht
+  rw [e1]
+  obtain ⟨p2, e2, g1, g2, g3, g4⟩ := pegStep2_ok p1 _ (if s.tip902 = true then THROTTLER_902 else THROTTLER_PRE)
+    h1 h2 (satU128_le_max _)
+  simp only [Outcome.bind]
+  rw [e2]
+  exact ⟨p2, rfl, g1, g2, by rw [g3, h3], by omega⟩
+
+theorem processPegging_ok (s st : State) (B : Nat) (hbase : SameBase s st)
+    (hpo : PoolsOk s.tip902 st.pools) (hB : ∀ p, st.pools.get poolMelSym = some p → p.lefts ≤ B) :
+    ∃ st', processPegging st = .ok st' ∧ SameBase s st' ∧ PoolsOk s.tip902 st'.pools ∧
+      (∀ p, st'.pools.get poolMelSym = some p → p.lefts ≤ B + U128_MAX / 200) := by
+  obtain ⟨sm, hsm, hsl, hsr, hsq⟩ := hpo.builtins poolMelSym (melSym_mem_builtinsOf _)
+  obtain ⟨me, hme, hel, her, heq⟩ := hpo.builtins poolMelErg (melErg_mem_builtinsOf _)
+  have hx : ∃ a b, pegXsd st = .ok (a, b) ∧ 0 < a := by
+    unfold pegXsd
+    cases ht : st.tip902
+    · simp only [Bool.false_eq_true, if_false, pegGet, hsm, hme, Outcome.bind]
+      rw [if_neg (by simp; omega), if_neg (by simp; omega)]
+      exact ⟨_, _, rfl, Nat.mul_pos hsr hel⟩
+    · rw [hbase.tip902] at ht
+      obtain ⟨es, hes, h1, h2, _⟩ := hpo.builtins poolErgSym (by rw [ht]; simp [builtinsOf])
+      simp only [if_true, pegGet, hes, Outcome.bind]
+      rw [if_neg (by omega), if_neg (by omega)]
+      exact ⟨_, _, rfl, h2⟩
+  obtain ⟨a, b, hx, ha⟩ := hx
+  obtain ⟨p, hp, h1, h2, h3, h4⟩ := pegTail_ok st sm a b hsl hsr ha
+  refine ⟨{ st with pools := st.pools.set poolMelSym p }, by rw [processPegging_eq, hx]; simp only [Outcome.bind, pegGet, hsm]; exact hp,
+    ⟨hbase.txs, hbase.height, hbase.network, hbase.feePool, hbase.tips⟩, ?_, ?_⟩
+  · exact hpo.set poolMelSym p (fun _ => ⟨h1, h2⟩) (fun _ => ⟨h1, h2, by rw [h3]; exact hsq⟩)
+  · intro q hq
+    simp only at hq
+    rw [AList.get_set_self] at hq; cases hq
+    have := hB sm hsm
+    omega
+
+theorem tip909_imp_tip902 (s : State) (h : s.tip909 = true) : s.tip902 = true := by
+  unfold State.tip909 State.tip902 State.tipCondition at *
+  have e1 : ¬ (TIP_909_HEIGHT = U64_MAX_HEIGHT) := by decide
+  have e2 : ¬ (TIP_902_HEIGHT = U64_MAX_HEIGHT) := by decide
+  rw [if_neg e1] at h
+  rw [if_neg e2]
+  by_cases hm : s.network = .mainnet
+  · simp only [hm, if_true, decide_eq_true_eq] at h ⊢
+    have : TIP_902_HEIGHT ≤ TIP_909_HEIGHT := by decide
+    omega
+  · simp only [hm, if_false] at h ⊢
+    exact h
+
+theorem two_le_length_of_get {pools : AList PoolKey PoolState} {k1 k2 : PoolKey} (hne : k1 ≠ k2)
+    (h1 : (pools.get k1).isSome = true) (h2 : (pools.get k2).isSome = true) : ¬ pools.length < 2 := by
+  obtain ⟨p1, hp1⟩ := Option.isSome_iff_exists.mp h1
+  obtain ⟨p2, hp2⟩ := Option.isSome_iff_exists.mp h2
+  have m1 := AList.mem_of_get_eq_some hp1
+  have m2 := AList.mem_of_get_eq_some hp2
+  match pools, m1, m2 with
+  | [], m1, _ => cases m1
+  | [x], m1, m2 =>
+    simp only [List.mem_singleton] at m1 m2
+    rw [← m1] at m2
+    exact absurd (congrArg Prod.fst m2).symm hne
+  | _ :: _ :: _, _, _ => simp
+
+theorem applyTip909_ok (s st : State) (B : Nat) (hbase : SameBase s st)
+    (hpo : PoolsOk s.tip902 st.pools) (h902 : s.tip902 = true)
+    (hh : s.height < TIP_909_HEIGHT + 128 * SUBSIDY_HALVING)
+    (hB : ∀ p, st.pools.get poolMelSym = some p → p.lefts ≤ B) (hfee : s.feePool + B ≤ U128_MAX) :
+    ∃ st', applyTip909 st = .ok st' ∧ st'.tips = s.tips ∧ st'.feePool ≤ s.feePool + B := by
+  obtain ⟨sm, hsm, hsl, hsr, hsq⟩ := hpo.builtins poolMelSym (melSym_mem_builtinsOf _)
+  obtain ⟨es, hes, hel, her, heq⟩ := hpo.builtins poolErgSym (by rw [h902]; simp [builtinsOf])
+  unfold applyTip909
+  simp only
+  rw [if_neg (by rw [hbase.height]; simp only [TIP_909_HEIGHT, SUBSIDY_HALVING] at hh ⊢; omega)]
+  simp only [hsm]
+  have hU : (2 : Nat) ^ 20 ≤ U128_MAX := by decide
+  generalize hrew : 2 ^ SUBSIDY_LOG2 / 2 ^ ((st.height - TIP_909_HEIGHT) / SUBSIDY_HALVING) = reward
+  have hrw : reward ≤ 2 ^ 20 := by
+    rw [← hrew]; exact Nat.le_trans (Nat.div_le_self _ _) (by decide)
+  generalize hfs : (if st.tip909a = true then reward - reward / 2 ^ SUBSIDY_ERG_SHIFT else reward / 2) = fs
+  have hfs' : fs ≤ reward := by
+    rw [← hfs]; split
+    · exact Nat.sub_le _ _
+    · exact Nat.div_le_self _ _
+  generalize hes' : (if st.tip909a = true then reward / 2 ^ SUBSIDY_ERG_SHIFT else reward - fs) = esub
+  have hesub : esub ≤ reward := by
+    rw [← hes']; split
+    · exact Nat.div_le_self _ _
+    · exact Nat.sub_le _ _
+  obtain ⟨sm', mel, x, e, h1, h2, h3, h4⟩ := swapMany_spec sm 0 fs hsl hsr (Nat.zero_le _) (by omega)
+  rw [e]
+  simp only [Outcome.bind]
+  have hBs := hB sm hsm
+  rw [if_neg (by rw [hbase.feePool]; omega)]
+  rw [AList.get_set_ne _ _ (Ne.symm poolMelSym_ne_poolErgSym)]
+  simp only [hes]
+  obtain ⟨es', a, b, e2, _⟩ := swapMany_spec es 0 esub hel her (Nat.zero_le _) (by omega)
+  rw [e2]
+  exact ⟨_, rfl, hbase.tips, by simp only; rw [hbase.feePool]; omega⟩
+
+/-! ### `create_builtins` establishes the pool invariant -/
+
+theorem createBuiltins_pools (s : State) : (createBuiltins s).pools =
+    if s.tip902 then ((s.pools.setIfNone poolMelSym builtinDefault).setIfNone poolMelErg builtinDefault).setIfNone
+        poolErgSym builtinDefault
+    else (s.pools.setIfNone poolMelSym builtinDefault).setIfNone poolMelErg builtinDefault := by
+  unfold createBuiltins AList.setIfNone
+  cases s.tip902 <;> simp
+
+theorem get_setIfNone_cases (m : AList PoolKey PoolState) (k k' : PoolKey) (v : PoolState) :
+    (m.setIfNone k v).get k' = m.get k' ∨ (m.setIfNone k v).get k' = some v := by
+  by_cases e : k' = k
+  · subst e
+    rw [AList.get_setIfNone_self]
+    cases h : m.get k' with
+    | none => right; rfl
+    | some q => left; rfl
+  · left; exact AList.get_setIfNone_ne m v e
+
+theorem isSome_setIfNone_self (m : AList PoolKey PoolState) (k : PoolKey) (v : PoolState) :
+    ((m.setIfNone k v).get k).isSome = true := by
+  rw [AList.get_setIfNone_self]; rfl
+
+theorem isSome_setIfNone_of (m : AList PoolKey PoolState) (k k' : PoolKey) (v : PoolState)
+    (h : (m.get k').isSome = true) : ((m.setIfNone k v).get k').isSome = true := by
+  by_cases e : k' = k
+  · subst e; exact isSome_setIfNone_self _ _ _
+  · rw [AList.get_setIfNone_ne m v e]; exact h
+
+theorem createBuiltins_get (s : State) (k : PoolKey) :
+    (createBuiltins s).pools.get k = s.pools.get k ∨ (createBuiltins s).pools.get k = some builtinDefault := by
+  have step : ∀ (m : AList PoolKey PoolState) (k2 : PoolKey),
+      (m.get k = s.pools.get k ∨ m.get k = some builtinDefault) →
+      ((m.setIfNone k2 builtinDefault).get k = s.pools.get k ∨
+        (m.setIfNone k2 builtinDefault).get k = some builtinDefault) := by
+    intro m k2 h
+    rcases get_setIfNone_cases m k2 k builtinDefault with e | e
+    · rw [e]; exact h
+    · right; exact e
+  rw [createBuiltins_pools]
+  split
+  · exact step _ _ (step _ _ (step _ _ (Or.inl rfl)))
+  · exact step _ _ (step _ _ (Or.inl rfl))
+
+theorem createBuiltins_isSome (s : State) (k : PoolKey) (hk : k ∈ builtinsOf s.tip902) :
+    ((createBuiltins s).pools.get k).isSome = true := by
+  rw [createBuiltins_pools]
+  unfold builtinsOf at hk
+  split at hk
+  · next ht =>
+    rw [if_pos ht]
+    simp only [List.mem_cons, List.not_mem_nil, or_false] at hk
+    rcases hk with rfl | rfl | rfl
+    · exact isSome_setIfNone_of _ _ _ _ (isSome_setIfNone_of _ _ _ _ (isSome_setIfNone_self _ _ _))
+    · exact isSome_setIfNone_of _ _ _ _ (isSome_setIfNone_self _ _ _)
+    · exact isSome_setIfNone_self _ _ _
+  · next ht =>
+    rw [if_neg ht]
+    simp only [List.mem_cons, List.not_mem_nil, or_false] at hk
+    rcases hk with rfl | rfl
+    · exact isSome_setIfNone_of _ _ _ _ (isSome_setIfNone_self _ _ _)
+    · exact isSome_setIfNone_self _ _ _
+
+theorem builtinDefault_facts : 0 < builtinDefault.lefts ∧ 0 < builtinDefault.rights ∧ 0 < builtinDefault.liqs ∧
+    builtinDefault.lefts ≤ 2 ^ 125 ∧ builtinDefault.liqs ≤ U128_MAX := by decide
+
+theorem createBuiltins_ok (s : State)
+    (hsane : ∀ k p, s.pools.get k = some p → (p.liqs ≠ 0 → 0 < p.lefts ∧ 0 < p.rights))
+    (hbuiltins : ∀ k ∈ [poolMelSym, poolMelErg, poolErgSym], ∀ p, s.pools.get k = some p →
+      0 < p.lefts ∧ 0 < p.rights ∧ 0 < p.liqs)
+    (hnd : ∀ k ∈ [poolMelSym, poolMelErg, poolErgSym], ∀ p, (createBuiltins s).pools.get k = some p →
+      drainOf s.txs k < p.liqs)
+    (hres : ∀ p, s.pools.get poolMelSym = some p → p.lefts ≤ 2 ^ 125)
+    (hu : ∀ k ∈ [poolMelSym, poolMelErg, poolErgSym], ∀ p, s.pools.get k = some p → p.liqs ≤ U128_MAX) :
+    PoolsOk s.tip902 (createBuiltins s).pools ∧ NotDrained s.tip902 s.txs (createBuiltins s).pools ∧
+      (∀ k ∈ builtinsOf s.tip902, drainOf s.txs k < U128_MAX) ∧
+      (∀ p, (createBuiltins s).pools.get poolMelSym = some p → p.lefts ≤ 2 ^ 125) := by
+  obtain ⟨d1, d2, d3, d4, d5⟩ := builtinDefault_facts
+  refine ⟨⟨?_, ?_⟩, ?_, ?_, ?_⟩
+  · intro k p hp
+    rcases createBuiltins_get s k with e | e
+    · rw [e] at hp; exact hsane k p hp
+    · rw [e] at hp; cases hp; exact fun _ => ⟨d1, d2⟩
+  · intro k hk
+    obtain ⟨p, hp⟩ := Option.isSome_iff_exists.mp (createBuiltins_isSome s k hk)
+    refine ⟨p, hp, ?_⟩
+    rcases createBuiltins_get s k with e | e
+    · rw [e] at hp; exact hbuiltins k (mem_builtinsOf_three hk) p hp
+    · rw [e] at hp; cases hp; exact ⟨d1, d2, d3⟩
+  · exact fun k hk p hp => hnd k (mem_builtinsOf_three hk) p hp
+  · intro k hk
+    obtain ⟨p, hp⟩ := Option.isSome_iff_exists.mp (createBuiltins_isSome s k hk)
+    have h1 := hnd k (mem_builtinsOf_three hk) p hp
+    have h2 : p.liqs ≤ U128_MAX := by
+      rcases createBuiltins_get s k with e | e
+      · rw [e] at hp; exact hu k (mem_builtinsOf_three hk) p hp
+      · rw [e] at hp; cases hp; exact d5
+    omega
+  · intro p hp
+    rcases createBuiltins_get s poolMelSym with e | e
+    · rw [e] at hp; exact hres p hp
+    · rw [e] at hp; cases hp; exact d4
+
+/-! ### Melmint as a whole -/
+
+theorem presealMelmint_ok (env : Env) (s : State)
+    (hcounts : s.tip906 = true → CountsOk s.coins)
+    (hfaith : Faithful s.txs s.coins)
+    (hn : (s.txs.map (·.hash)).Nodup)
+    (hsane : ∀ k p, s.pools.get k = some p → (p.liqs ≠ 0 → 0 < p.lefts ∧ 0 < p.rights))
+    (hbuiltins : ∀ k ∈ [poolMelSym, poolMelErg, poolErgSym], ∀ p, s.pools.get k = some p →
+      0 < p.lefts ∧ 0 < p.rights ∧ 0 < p.liqs)
+    (hnd : ∀ k ∈ [poolMelSym, poolMelErg, poolErgSym], ∀ p, (createBuiltins s).pools.get k = some p →
+      drainOf s.txs k < p.liqs)
+    (hres : ∀ p, s.pools.get poolMelSym = some p → p.lefts ≤ 2 ^ 125)
+    (hu : ∀ k ∈ [poolMelSym, poolMelErg, poolErgSym], ∀ p, s.pools.get k = some p → p.liqs ≤ U128_MAX)
+    (hV : melInflow s.txs ≤ 2 ^ 124) :
+    ∃ st, presealMelmint env s = .ok st ∧ SameBase s st ∧ PoolsOk s.tip902 st.pools ∧
+      (∀ p, st.pools.get poolMelSym = some p → p.lefts ≤ 2 ^ 125 + 2 ^ 124 + 2 ^ 124 + U128_MAX / 200) := by
+  obtain ⟨hpo, hnd0, hDmax, hB0⟩ := createBuiltins_ok s hsane hbuiltins hnd hres hu
+  have hbase0 : SameBase s (createBuiltins s) := ⟨rfl, rfl, rfl, rfl, rfl⟩
+  obtain ⟨s1, e1, hb1, hpo1, hci1, hnd1, hB1⟩ := processSwaps_ok s (createBuiltins s) (2 ^ 125) (2 ^ 124)
+    hbase0 hn hpo ⟨hcounts, hfaith⟩ hnd0 hV hB0
+  obtain ⟨s2, e2, hb2, hpo2, hnd2, hB2⟩ := processDeposits_ok env s s1 (2 ^ 125 + 2 ^ 124) (2 ^ 124)
+    hb1 hn hpo1 hci1 hnd1 hV hDmax hB1
+  obtain ⟨s3, e3, hb3, hpo3, hB3⟩ := processWithdrawals_ok env s s2 _ hb2 hpo2 hnd2 hB2
+  obtain ⟨s4, e4, hb4, hpo4, hB4⟩ := processPegging_ok s s3 _ hb3 hpo3 hB3
+  refine ⟨s4, ?_, hb4, hpo4, hB4⟩
+  unfold presealMelmint
+  simp only
+  have hlen : ¬ (createBuiltins s).pools.length < 2 := by
+    obtain ⟨p1, h1, _⟩ := hpo.builtins poolMelSym (melSym_mem_builtinsOf _)
+    obtain ⟨p2, h2, _⟩ := hpo.builtins poolMelErg (melErg_mem_builtinsOf _)
+    exact two_le_length_of_get poolMelSym_ne_poolMelErg (by rw [h1]; rfl) (by rw [h2]; rfl)
+  rw [if_neg hlen, e1]
+  simp only [Outcome.bind]
+  rw [e2]
+  simp only
+  rw [e3]
+  simp only
+  exact e4
+
+theorem applyProposerAction_ok (env : Env) (s : State) (a : ProposerAction)
+    (hb : s.feePool / 65536 + s.tips ≤ U128_MAX) : ∃ s', applyProposerAction env s a = .ok s' := by
+  unfold applyProposerAction collectProposerFee
+  simp only
+  split
+  · next h =>
+    exfalso
+    have e : 2 ^ REWARD_SHIFT = 65536 := by decide
+    rw [e] at h
+    omega
+  · exact ⟨_, rfl⟩
+
+/-- sealing succeeds -/
+theorem sealState_ok (env : Env) (s : State) (action : Option ProposerAction)
+    (hcounts : s.tip906 = true → CountsOk s.coins)
+    (hfaith : Faithful s.txs s.coins)
+    (hn : (s.txs.map (·.hash)).Nodup)
+    (hsane : ∀ k p, s.pools.get k = some p → (p.liqs ≠ 0 → 0 < p.lefts ∧ 0 < p.rights))
+    (hbuiltins : ∀ k ∈ [poolMelSym, poolMelErg, poolErgSym], ∀ p, s.pools.get k = some p →
+      0 < p.lefts ∧ 0 < p.rights ∧ 0 < p.liqs)
+    (hnd : ∀ k ∈ [poolMelSym, poolMelErg, poolErgSym], ∀ p, (createBuiltins s).pools.get k = some p →
+      drainOf s.txs k < p.liqs)
+    (hres : ∀ p, s.pools.get poolMelSym = some p → p.lefts ≤ 2 ^ 125)
+    (hu : ∀ k ∈ [poolMelSym, poolMelErg, poolErgSym], ∀ p, s.pools.get k = some p → p.liqs ≤ U128_MAX)
+    (hV : melInflow s.txs ≤ 2 ^ 124)
+    (hfee : s.feePool + s.tips + 2 ^ 21 ≤ 2 ^ 127)
+    (hh : s.height < TIP_909_HEIGHT + 128 * SUBSIDY_HALVING) :
+    ∃ ss, sealState env s action = .ok ss := by
+  obtain ⟨s1, e1, hb1, hpo1, hB1⟩ := presealMelmint_ok env s hcounts hfaith hn hsane hbuiltins hnd hres hu hV
+  have hU : U128_MAX = 340282366920938463463374607431768211455 := by decide
+  have hlen : ¬ s1.pools.length < 2 := by
+    obtain ⟨p1, h1, _⟩ := hpo1.builtins poolMelSym (melSym_mem_builtinsOf _)
+    obtain ⟨p2, h2, _⟩ := hpo1.builtins poolMelErg (melErg_mem_builtinsOf _)
+    exact two_le_length_of_get poolMelSym_ne_poolMelErg (by rw [h1]; rfl) (by rw [h2]; rfl)
+  have h2 : ∃ s2, (if s1.tip909 = true then applyTip909 s1 else .ok s1) = .ok s2 ∧ s2.tips = s.tips ∧
+      s2.feePool ≤ s.feePool + (2 ^ 125 + 2 ^ 124 + 2 ^ 124 + U128_MAX / 200) := by
+    by_cases h9 : s1.tip909 = true
+    · rw [if_pos h9]
+      have h902 : s.tip902 = true := tip909_imp_tip902 s (by rw [← hb1.tip909]; exact h9)
+      exact applyTip909_ok s s1 _ hb1 hpo1 h902 hh hB1 (by omega)
+    · rw [if_neg h9]
+      exact ⟨s1, rfl, hb1.tips, by rw [hb1.feePool]; omega⟩
+  obtain ⟨s2, e2, ht2, hf2⟩ := h2
+  unfold sealState
+  rw [e1]
+  simp only [Outcome.bind]
+  rw [if_neg hlen, e2]
+  simp only
+  cases action with
+  | none => exact ⟨_, rfl⟩
+  | some a =>
+    obtain ⟨s3, e3⟩ := applyProposerAction_ok env s2 a (by rw [ht2]; omega)
+    simp only
+    rw [e3]
+    exact ⟨_, rfl⟩
+
+/-- the swap phase on its own succeeds in any state: the selector only lets through requests with a
+    positive amount that name a pool with reserves, and `swap_many` keeps reserves -/
+theorem processSwaps_total (s : State) : ∃ s1, processSwaps s = .ok s1 := by
+  unfold processSwaps
+  simp only
+  generalize hreqs : s.txs.filter (isSwapRequest s) = reqs
+  have hks : ∀ k ∈ extractPoolKeysSorted reqs, ∃ p, s.pools.get k = some p ∧ 0 < p.lefts ∧ 0 < p.rights := by
+    intro k hk
+    obtain ⟨tx, htx, hck⟩ := mem_extractPoolKeysSorted hk
+    rw [← hreqs] at htx
+    obtain ⟨k', o, rest, p, hck', _, _, hp, h1, h2, _⟩ := isSwapRequest_full (List.mem_filter.mp htx).2
+    rw [hck] at hck'; cases hck'
+    exact ⟨p, hp, h1, h2⟩
+  have hsw : ∀ k, ∀ tx ∈ transactionsForPool reqs k,
+      ∃ o rest, tx.outputs = o :: rest ∧ 0 < o.value ∧ (o.denom = k.left ∨ o.denom = k.right) := by
+    intro k tx htx
+    obtain ⟨htx, hck⟩ := mem_transactionsForPool'.mp htx
+    rw [← hreqs] at htx
+    obtain ⟨k', o, rest, p, hck', ho, hpos, _, _, _, hden⟩ := isSwapRequest_full (List.mem_filter.mp htx).2
+    rw [hck] at hck'; cases hck'
+    exact ⟨o, rest, ho, hpos, hden⟩
+  refine Exists.elim (Outcome.foldlM'_ok
+    (fun st k => processSwapsForPool k st (transactionsForPool reqs k))
+    (fun st rest =>
+      (∀ k ∈ extractPoolKeysSorted reqs, ∃ p, st.pools.get k = some p ∧ 0 < p.lefts ∧ 0 < p.rights) ∧
+      (∀ k ∈ rest, k ∈ extractPoolKeysSorted reqs))
+    ?_ (extractPoolKeysSorted reqs) s ⟨hks, fun _ h => h⟩)
+    (fun s1 ⟨h1, _⟩ => ⟨s1, h1⟩)
+  intro st k rest ⟨hks', hsub⟩
+  obtain ⟨pool, hpool, hl, hr⟩ := hks' k (hsub k List.mem_cons_self)
+  obtain ⟨pool', lw, rw, hsm, hl', hr', _, _⟩ :=
+    swapMany_spec pool (swapTL k (transactionsForPool reqs k)) (swapTR k (transactionsForPool reqs k))
+      hl hr (satSum_le_max _) (satSum_le_max _)
+  obtain ⟨coins, _, hok⟩ := processSwapsForPool_ok k st (transactionsForPool reqs k) pool pool' lw rw
+    (fun _ => True) hpool hsm (hsw k) trivial (fun _ _ _ _ _ _ _ _ _ => trivial)
+  refine ⟨_, hok, ?_, fun k' hk' => hsub k' (List.mem_cons_of_mem _ hk')⟩
+  intro k' hk'
+  simp only
+  by_cases e : k' = k
+  · subst e; rw [AList.get_set_self]; exact ⟨pool', rfl, hl', hr'⟩
+  · rw [AList.get_set_ne _ _ e]; exact hks' k' hk'
+
 end Mel
